@@ -45,7 +45,7 @@ def has_skip(item):
 PROPS = {
     'C01': dict(traits=None, part='header', theorems=['DW.C01_applies_iff', 'DW.C01_unlisted_unconstrained', 'DW.C01_no_leak', 'DW.C01_merge_sound', 'DW.dedupGo_generics'],
                 enums=['bounds'], configs_quick=['default', 'safe', 'zod'], design='7/C01'),
-    'C02': dict(traits=None, part='all', count=True, theorems=['DW.C02_impl_list', 'DW.C02_delegation_same_bounds', 'DW.implPreds_shortcut', 'DW.C18_effect', 'DW.C09_fieldwise', 'DW.C06_skipped_never_mentioned', 'DW.C02_obligations'],
+    'C02': dict(traits=None, part='all', count=True, theorems=['DW.C02_impl_list', 'DW.C02_delegation_same_bounds', 'DW.implPreds_shortcut', 'DW.C18_effect', 'DW.C09_fieldwise', 'DW.C06_skipped_never_mentioned', 'DW.C02_obligations', 'DW.C02_well_typed', 'DW.typeable_of_validated'],
                 enums=None, configs_quick=['default', 'safe', 'zod'], diagnostics=True, design='7/C02'),
     'C03': dict(traits=['PartialEq'], theorems=['DW.C03_eq'], enums=['incomparable', 'skip'], design='7/C03'),
     'C04': dict(tables=True, traits=['PartialOrd', 'Ord'], theorems=['DW.buildDiscriminants_spec', 'DW.C04_ord_refines', 'DW.C04_delegation', 'DW.C04_agree'],
@@ -66,7 +66,7 @@ PROPS = {
     'C09': dict(traits=['Clone', 'Copy'], theorems=['DW.C09_fieldwise', 'DW.C09_shortcut', 'DW.C09_union', 'DW.C09_copy_marker'],
                 enums=['bounds', 'skip'], design='7/C09'),
     'C10': dict(traits=['Debug'], theorems=['DW.C10_transcript', 'DW.C10_names'], enums=['debug', 'skip'], design='7/C10'),
-    'C11': dict(traits=['Default'], theorems=['DW.C11_body'], enums=['default'], design='7/C11'),
+    'C11': dict(traits=['Default'], theorems=['DW.C11_body', 'DW.C11_validated'], enums=['default'], design='7/C11'),
     'C12': dict(tables=True, traits=['PartialEq', 'PartialOrd', 'Ord'], theorems=['DW.C12_no_ub_eq', 'DW.C12_no_ub_ord', 'DW.C12_safe_no_unsafe'],
                 enums=['incomparable', 'discriminants'], configs_quick=['default', 'safe'], unsafe_scan=True, design='7/C12'),
     'C13': dict(traits=STD, theorems=['DW.C13_eq_cfg_independent', 'DW.C13_ord_cfg_independent', 'DW.C13_untouched_traits',
@@ -84,7 +84,7 @@ PROPS = {
                 enums=['invalid', 'skip', 'default'], configs_quick=['default', 'zeroize'], diagnostics=True, design='7/C15'),
     'C16': dict(traits=[], outcome='message', theorems=['DW.C16_no_panic_stage2', 'DW.Input.fromInput_np', 'DW.genPanic_none', 'DW.C16_stage1_item_kept', 'DW.C16_stage1_forward', 'DW.C16_pipeline'],
                 enums=['invalid', 'names'], stage1=True, malformed=0.6, configs_quick=['default', 'zeroize'], diagnostics=True, design='7/C16'),
-    'C17': dict(traits=['Eq', 'Clone'], theorems=['DW.C17_eq_obligations', 'DW.C17_union', 'DW.C06_skipped_never_mentioned', 'DW.C02_obligations'], enums=['skip', 'bounds'], design='7/C17'),
+    'C17': dict(traits=['Eq', 'Clone'], theorems=['DW.C17_eq_obligations', 'DW.C17_union', 'DW.C06_skipped_never_mentioned', 'DW.C02_obligations', 'DW.C02_well_typed'], enums=['skip', 'bounds'], design='7/C17'),
     'C18': dict(traits=['Zeroize'], theorems=['DW.C18_effect'], enums=['zeroize', 'skip'], configs_quick=['zeroize', 'zod'],
                 configs_thorough=['zeroize', 'zod', 'safe-zod'], design='7/C18'),
     'C19': dict(traits=['ZeroizeOnDrop'], theorems=['DW.C19_effect_zod', 'DW.C19_effect_delegating', 'DW.C19_impls'],
